@@ -148,6 +148,8 @@ fn opts_for(prop: &str, r: &mut Rng) -> GenOpts {
         }
         "C06" => {
             o.p_raw_graph = 0.5;
+            o.hostile_reads = 0.3;
+            o.p_post = 0.4;
             o.hostile_outputs = 0.4;
             o.p_fail = 0.2;
             o.p_data_leaf = 0.5;
